@@ -287,6 +287,8 @@ class Parser:
                         flag = False
                     else:
                         self._parse_subtree(current)
+                        self._assert_and_cunsume(TokenType.BRACKET_RIGHT)
+                        flag = True
 
                 case TokenType.BRACKET_RIGHT:
                     break
